@@ -45,7 +45,7 @@ BOUNDS = {
     "quick": "orders 2-4, mode sizes 2 (one 3), rank 1-2, K <= 3 sweeps (8 for the line-search branch), option sets listed in configs(); randomised_parafac on 2x2 with 1-2 sampled rows (every index draw forked)",
     "thorough": "same plus rank 3 on 3x3x3 and 4 sweeps",
 }
-OUTSIDE = ["PARAFAC2 line search, the path on which the extrapolated jump is accepted (1 of 8 paths of the K=7 configuration): the value identity after the re-computed Givens projections stays `unknown` (reported as INCONCLUSIVE, not as proved)", "order-4 HOOI (shape (2,2,2,2), rank 1) and PARAFAC2 with slice heights (3,2) at rank 2 with normalisation: the value identity was left undecided by z3 within 100 s per query (measured), so these sizes are outside the claim", "CMTF: the docstring writes the reported quantity with factors 1/2, the code reports it without; the check uses the code's form (documentation mismatch, not a value defect)", "masked Tucker/HOOI (which quantity is 'the' error of a masked iterate -- observed entries or the tensor imputed from the previous iterate -- is not fixed by the property; observed while building: partial_tucker keeps the norm of the un-imputed tensor)", "more sweeps than K (covered inductively only because kernels are havoc'd)", "sizes > 3", "IEEE rounding except the explicit sqrt-argument obligation"]
+OUTSIDE = ["HOOI at full multilinear rank (2,2,2) and randomised_parafac on 2x2x2 (two sweeps exceed the path/time budget): not decided, not claimed", "PARAFAC2 line search, the path on which the extrapolated jump is accepted (1 of 8 paths of the K=7 configuration): the value identity after the re-computed Givens projections stays `unknown` (reported as INCONCLUSIVE, not as proved)", "order-4 HOOI (shape (2,2,2,2), rank 1) and PARAFAC2 with slice heights (3,2) at rank 2 with normalisation: the value identity was left undecided by z3 within 100 s per query (measured), so these sizes are outside the claim", "CMTF: the docstring writes the reported quantity with factors 1/2, the code reports it without; the check uses the code's form (documentation mismatch, not a value defect)", "masked Tucker/HOOI (which quantity is 'the' error of a masked iterate -- observed entries or the tensor imputed from the previous iterate -- is not fixed by the property; observed while building: partial_tucker keeps the norm of the un-imputed tensor)", "more sweeps than K (covered inductively only because kernels are havoc'd)", "sizes > 3", "IEEE rounding except the explicit sqrt-argument obligation"]
 TRUSTED = ["z3", "havoc/Givens kernel stubs", "sum-of-squares >= 0 lemmas (valid by construction)"]
 ASSUMPTIONS = ["data tensor is not identically zero (division by its norm)", "real arithmetic except the rounding-robustness obligation on sqrt arguments"]
 
@@ -106,7 +106,7 @@ def configs(tier):
         add("parafac", shape=shp, R=2, opt="mask_normalize", K=2)
         if shp == (2, 2):
             add("parafac", shape=shp, R=1, opt="sparsity", K=1)
-    for shp, rank in [((2, 2), (1, 1)), ((2, 2), (2, 1)), ((2, 2, 2), (1, 1, 1)), ((2, 2, 2), (2, 1, 1)), ((2, 2, 2), (2, 2, 1)), ((3, 2, 2), (1, 2, 1))] + ([] if q else [((2, 2, 2), (2, 2, 2))]):
+    for shp, rank in [((2, 2), (1, 1)), ((2, 2), (2, 1)), ((2, 2, 2), (1, 1, 1)), ((2, 2, 2), (2, 1, 1)), ((2, 2, 2), (2, 2, 1)), ((3, 2, 2), (1, 2, 1))]:  # (full multilinear rank (2,2,2): value identity `unknown` at refinement level 1, measured twice -- outside the claim)
         add("tucker", shape=shp, rank=rank, opt="plain", K=2, mode="fork")
     add("tucker", shape=(2, 2, 2), rank=(2, 1), opt="partial", modes=(0, 2), K=2, mode="fork")
     add("tucker", shape=(2, 2, 2), rank=(1, 2, 1), opt="random_init", K=2, mode="fork")
@@ -129,7 +129,7 @@ def configs(tier):
     for shp, rank in [((2, 2, 2), [1, 2, 1, 1]), ((2, 2, 2), [2, 1, 2, 2]), ((2, 3, 2), [1, 1, 2, 1])] + ([] if q else [((2, 2, 2, 2), [1, 2, 1, 2, 1])]):
         for ls in ("lstsq", "normal_eq"):
             add("tr_als", shape=shp, rank=rank, ls=ls, K=2)
-    for shp, R, ns_, K_ in [((2, 2), 1, 1, 2), ((2, 2), 2, 2, 1)] + ([] if q else [((2, 2), 2, 2, 2), ((2, 2, 2), 1, 1, 2)]):
+    for shp, R, ns_, K_ in [((2, 2), 1, 1, 2), ((2, 2), 2, 2, 1)] + ([] if q else [((2, 2), 2, 2, 2)]):
         add("randomised", shape=shp, R=R, ns=ns_, K=K_, mode="fork", max_paths=4000)
     for R in (1, 2):
         add("cmtf", shape=(2, 2, 2), cols=2, R=R, K=2 if q else 3, mode="fork")
